@@ -190,6 +190,19 @@ func runVector(v M) (out M) {
 		if err == nil {
 			got["bytes"] = toInts(buf.Bytes())
 		}
+		// and into a buffer that has already carried a longer packet of other bytes, as a connection's buffer has:
+		// SerializeBuffer.Clear() does not zero it, so every byte of the encoding must be written
+		dirty := gopacket.NewSerializeBuffer()
+		junk := make([]byte, 300)
+		for i := range junk {
+			junk[i] = 0xa5
+		}
+		_ = gopacket.SerializeLayers(dirty, gopacket.SerializeOptions{}, gopacket.Payload(junk))
+		err2 := gopacket.SerializeLayers(dirty, gopacket.SerializeOptions{FixLengths: true, ComputeChecksums: true}, l, pl)
+		got["errReused"] = err2 != nil
+		if err2 == nil {
+			got["bytesReused"] = toInts(dirty.Bytes())
+		}
 		out["got"] = got
 	case "func":
 		// exported pure functions of the library, named by the vector
